@@ -201,6 +201,16 @@ func runC04(t *testing.T, tape *sim.Tape, tier string) *Outcome {
 		reqs = append(reqs, &wl.Req{Idx: len(reqs), Bytes: b, Name: name, Class: d})
 		descs = append(descs, clipS(d, 160))
 	}
+	// one stream in eight ends with bytes that are no RESP value at all (and whose offending bytes are themselves
+	// CR or LF, or look like frames): the server answers with one properly framed error reply, or closes, or waits
+	malformedTail := -1
+	if tape.Draw(8, "malformedtail") == 7 {
+		bad := [][]byte{[]byte("$3\r\nabc\n\n"), []byte("\r\n"), []byte("\n\r\n"), []byte("?x\r\n"), []byte("$3\r\nabc\r\r\n"), []byte("*x\r\n"), []byte("$2\r\nab+OK\r\n"), []byte("\r\r\n+OK\r\n")}[tape.Draw(8, "tailkind")]
+		malformedTail = len(reqs)
+		reqs = append(reqs, &wl.Req{Idx: len(reqs), Bytes: bad, Name: "?", Class: "malformed"})
+		descs = append(descs, fmt.Sprintf("malformed tail %q", bad))
+		o.stat("streams_ending_with_unparsable_bytes", 1)
+	}
 	c.setReqs(reqs)
 	plan := make([]handlerResult, 6*len(reqs)+8)
 	for i := range plan {
@@ -253,6 +263,16 @@ func runC04(t *testing.T, tape *sim.Tape, tier string) *Outcome {
 			return
 		}
 		want := c.fullyDelivered()
+		if malformedTail >= 0 && want > malformedTail {
+			// the unparsable tail may be answered by one error frame, by a close, or not at all
+			if len(vals) == want && vals[want-1].K != resp.Error {
+				o.violate("c04:extra-frame", "the unparsable tail %s was answered with %s, which is not an error reply", descs[malformedTail], vals[want-1])
+				return
+			}
+			if len(vals) == want-1 {
+				want--
+			}
+		}
 		if rest != 0 {
 			o.violate("c04:truncated-reply", "server waits for input (or ended) with an incomplete reply frame written (%d bytes): %q", rest, clip(c.reply, 200))
 			return
@@ -320,7 +340,7 @@ func init() {
 	register(&Check{
 		ID: "C04", Bubble: true, Run: runC04,
 		Runs:   map[string]int{"quick": 30000, "thorough": 1500000},
-		Rule:   "a case is one (client value stream, handler-result plan, delivery schedule) triple: client values of every RESP type incl. odd command arrays and hostile bytes; per handler call an injected result (hostile status/error text incl. texts padded so that the reply line ends within a few bytes of a power of two between 64 B and 64 KiB, rarely of 1..3 MiB, arbitrary value tree, nil, error, message+error, floats incl. Inf/NaN, status/error/integer/bulk messages whose payload the handler set through proto.Message.SetBytes, one cached array message object returned by many calls, one prepared status message whose buffer the handler rewrites in place, messages whose Type field the handler sets after building them); an application executor that answers with the message object it received (line-typed arguments with LF inside); one run in eight has the client stop reading behind a small window for 1 s .. 1 h of simulated time before it reads on; distinct = distinct (shape, chunking, stream hash) signatures; non-trivial = handler faults enabled or chunked delivery",
+		Rule:   "a case is one (client value stream, handler-result plan, delivery schedule) triple: client values of every RESP type incl. odd command arrays and hostile bytes; per handler call an injected result (hostile status/error text incl. texts padded so that the reply line ends within a few bytes of a power of two between 64 B and 64 KiB, rarely of 1..3 MiB, arbitrary value tree, nil, error, message+error, floats incl. Inf/NaN, status/error/integer/bulk messages whose payload the handler set through proto.Message.SetBytes, one cached array message object returned by many calls, one prepared status message whose buffer the handler rewrites in place, messages whose Type field the handler sets after building them); an application executor that answers with the message object it received (line-typed arguments with LF inside); one stream in eight ends with bytes that are no RESP value (bad bulk terminators made of CR/LF, blank lines, unknown type bytes), answered by one framed error reply, a close, or nothing; one run in eight has the client stop reading behind a small window for 1 s .. 1 h of simulated time before it reads on; distinct = distinct (shape, chunking, stream hash) signatures; non-trivial = handler faults enabled or chunked delivery",
 		Real:   []string{"redis.Server connection loop, dispatch, executors, error construction, redis/proto serializer"},
 		Stub:   []string{"transport: simulated net.Conn", "handler: double returning injected results built with the public constructors"},
 		Assume: []string{"an integer message whose text a handler set to non-numeric bytes is judged on framing only (one complete line without CR/LF): the framework cannot make it a number", "arrays are built with NewArrayMessage/Append of non-nil messages"},
